@@ -315,7 +315,8 @@ fn cmd_replay(args: &[String]) -> i32 {
             println!("signature {}", v.signature());
             println!("message {}", v.msg);
             if let Some(e) = &t.expect {
-                if *e != line {
+                // --lenient: any violation on this history counts (used for pinned traces of recorded findings)
+                if *e != line && !args.iter().any(|a| a == "--lenient") {
                     println!("MISMATCH expected: {}", e);
                     return 2;
                 }
